@@ -9,10 +9,10 @@ from gv.model import dbutil
 
 ID = "C16"
 RULE = (
-    "Part 'merge' (shards = 12 criteria sets x blocks of multisets): every start-ordered multiset of <= 3 intervals over 6 positions "
+    "Part 'merge' (shards = 13 criteria sets x blocks of multisets): every start-ordered multiset of <= 3 intervals over 6 positions "
     "plus all 4-multisets over 4 positions (quick, 2738) / <= 5 intervals over 6 positions (thorough, 65779) x seqid/strand/type "
     "pattern {uniform, last differs in strand, type, seqid, a sequence name holding a comma (<= 2 members only)} x object history "
-    "{fresh, previously merged under 'exact', merged twice, outputs re-merged, after children_bp calls}; criteria = default, 8 library "
+    "{fresh, previously merged under 'exact', merged twice, outputs re-merged, after children_bp calls}; criteria = default, 9 library "
     "sets, two custom predicates (one answering with non-bool values) and the empty list, given as list/tuple/iterator/generator in "
     "rotation. The real merge() output is compared with a reference run-builder: partition, extents, fresh distinct ids, singletons, "
     "inputs unchanged, repeatability, default-criteria extents equal an independent interval union, no exception; database unchanged on "
